@@ -5,141 +5,10 @@
 From Coq Require Import ZArith List Bool Arith Lia.
 From SP Require Import Design.Flat Design.Layout Comb.CombModel Random.Enum Random.Frag Random.RunLemmas Random.FragPerm.
 From SP Require Comb.CombSpec Comb.PermProofs Comb.StackProofs Comb.SessionProofs Comb.TotalProofs.
+From SP Require Export Random.ListFacts.
 Import ListNotations.
 Open Scope nat_scope.
 Set Default Proof Using "All".
-
-Definition the_crossing (fb : flat) : list nat := hd [] (fl_crossings fb).
-
-Lemma nodupb_NoDup xs : nodupb xs = true -> NoDup xs.
-Proof.
-  induction xs as [|x t IH]; cbn; intros H; [constructor|].
-  apply andb_prop in H. destruct H as [H1 H2]. constructor.
-  - apply negb_true_iff in H1. apply memb_false in H1. exact H1.
-  - apply IH. exact H2.
-Qed.
-
-Lemma nat_list_eqb_eq a b : nat_list_eqb a b = true -> a = b.
-Proof.
-  revert b. induction a as [|x a IH]; intros [|y b] H; cbn in H; try discriminate; [reflexivity|].
-  apply andb_prop in H. destruct H as [H1 H2]. apply Nat.eqb_eq in H1. subst. f_equal. apply IH. exact H2.
-Qed.
-
-Lemma nat_list_eqb_refl a : nat_list_eqb a a = true.
-Proof. induction a; cbn; [reflexivity | rewrite Nat.eqb_refl; exact IHa]. Qed.
-
-Lemma filter_all {A} (p : A -> bool) xs : (forall x, In x xs -> p x = true) -> filter p xs = xs.
-Proof.
-  induction xs as [|x t IH]; intros H; cbn; [reflexivity|].
-  rewrite (H x (or_introl eq_refl)). f_equal. apply IH. intros y Hy. apply H. right. exact Hy.
-Qed.
-
-Lemma filter_none {A} (p : A -> bool) xs : (forall x, In x xs -> p x = false) -> filter p xs = [].
-Proof.
-  induction xs as [|x t IH]; intros H; cbn; [reflexivity|].
-  rewrite (H x (or_introl eq_refl)). apply IH. intros y Hy. apply H. right. exact Hy.
-Qed.
-
-Lemma prodZl_ones l : (forall x, In x l -> x = 1%Z) -> prodZl l = 1%Z.
-Proof.
-  unfold prodZl. intros H. assert (G : forall acc, fold_left Z.mul l acc = acc).
-  { induction l as [|x t IH]; intros acc; cbn; [reflexivity|].
-    rewrite (H x (or_introl eq_refl)). rewrite Z.mul_1_r. apply IH. intros y Hy. apply H. right. exact Hy. }
-  apply G.
-Qed.
-
-Lemma in_combine_fst {A B} (xs : list A) (ys : list B) p : In p (combine xs ys) -> In (fst p) xs.
-Proof. destruct p. intros H. eapply in_combine_l. exact H. Qed.
-
-Lemma fold_add_ones {A} (l : list A) acc : fold_left Z.add (map (fun _ => 1%Z) l) acc = (acc + Z.of_nat (length l))%Z.
-Proof.
-  revert acc. induction l as [|x t IH]; intros acc; cbn [map fold_left length]; [lia|].
-  rewrite IH. lia.
-Qed.
-
-Lemma forallb_ones {A} (l : list A) : forallb (Z.eqb 1) (map (fun _ => 1%Z) l) = true.
-Proof. induction l; cbn; [reflexivity | exact IHl]. Qed.
-
-Lemma all_equal_ones {A} (l : list A) : all_equal_Z (map (fun _ => 1%Z) l) = true.
-Proof. destruct l; cbn; [reflexivity|]. apply forallb_ones. Qed.
-
-Lemma fact_nat_pos k : (0 < fact_nat k)%Z.
-Proof. induction k; cbn [fact_nat]; [lia|]. lia. Qed.
-
-Lemma product_nonempty {A} (lss : list (list A)) : (forall l, In l lss -> l <> []) -> product lss <> [].
-Proof.
-  induction lss as [|l t IH]; intros H; cbn [product]; [discriminate|].
-  assert (Hl : l <> []) by (apply H; left; reflexivity).
-  assert (Ht : product t <> []) by (apply IH; intros l' Hl'; apply H; right; exact Hl').
-  destruct l as [|x l']; [contradiction|]. cbn [flat_map]. destruct (product t); [contradiction|]. discriminate.
-Qed.
-
-Lemma pairs_eqb_eq a b : pairs_eqb a b = true -> a = b.
-Proof.
-  revert b. induction a as [|[x1 x2] a IH]; intros [|[y1 y2] b] H; cbn in H; try discriminate; [reflexivity|].
-  apply andb_prop in H. destruct H as [H H3]. apply andb_prop in H. destruct H as [H1 H2].
-  apply Nat.eqb_eq in H1. apply Nat.eqb_eq in H2. subst. f_equal. apply IH. exact H3.
-Qed.
-
-Lemma filter_map_comm {A B} (g : A -> B) (p : B -> bool) l : filter p (map g l) = map g (filter (fun x => p (g x)) l).
-Proof. induction l as [|x t IH]; [reflexivity|]. cbn. destruct (p (g x)); cbn; rewrite IH; reflexivity. Qed.
-
-Definition the_weight (fb : flat) : nat := hd 0 (fl_weights fb).
-
-Lemma forallb_eqb_all a l : forallb (Nat.eqb a) l = true -> forall x, In x l -> x = a.
-Proof. intros H x Hx. rewrite forallb_forall in H. specialize (H x Hx). apply Nat.eqb_eq in H. congruence. Qed.
-
-Lemma first_index_of_spec c cs : In c cs -> forall a, exists j, first_index_of c cs a = Some (a + j) /\ j < length cs.
-Proof.
-  induction cs as [|d t IH]; intros H a; [destruct H|]. cbn [first_index_of].
-  destruct (nat_list_eqb d c) eqn:E.
-  - exists 0. split; [f_equal; lia | cbn; lia].
-  - destruct H as [H | H]; [subst; rewrite nat_list_eqb_refl in E; discriminate|].
-    destruct (IH H (S a)) as [j [Hj Hl]]. exists (S j). split; [rewrite Hj; f_equal; lia | cbn; lia].
-Qed.
-
-Lemma fold_max_zero l : (forall x, In x l -> x = 0) -> fold_left Nat.max l 0 = 0.
-Proof.
-  induction l as [|x t IH]; intros H; [reflexivity|]. cbn [fold_left]. rewrite (H x (or_introl eq_refl)). cbn [Nat.max].
-  apply IH. intros y Hy. apply H. right. exact Hy.
-Qed.
-
-(** the weight the block attaches to a crossing: that of the first crossing equal to it *)
-Definition cw_of (fb : flat) (ci : list nat) : nat :=
-  match first_index_of ci (fl_crossings fb) 0 with
-  | Some j => nth j (fl_weights fb) 0
-  | None => nth 0 (rev (fl_weights fb)) 0
-  end.
-
-
-Lemma prodZl_fold_right l : prodZl l = fold_right Z.mul 1%Z l.
-Proof.
-  unfold prodZl. assert (G : forall acc, fold_left Z.mul l acc = (acc * fold_right Z.mul 1 l)%Z).
-  { induction l as [|x t IH]; intros acc; cbn [fold_left fold_right]; [lia|]. rewrite IH. lia. }
-  rewrite G. lia.
-Qed.
-
-Lemma combo_weight_Z fb di : Z.of_nat (combo_weight fb di) = combination_weight fb di.
-Proof.
-  unfold combination_weight. rewrite prodZl_fold_right. induction di as [|p t IH]; [reflexivity|].
-  cbn [combo_weight fold_right map]. fold (combo_weight fb t). rewrite Nat2Z.inj_mul, IH. f_equal.
-  unfold level_weight_nat, level_weight. destruct (nth_error (levels_of fb (fst p)) (snd p)); reflexivity.
-Qed.
-
-Lemma zsum_map_of_nat {A} (g : A -> nat) l : CombSpec.zsum (map (fun x => Z.of_nat (g x)) l) = Z.of_nat (list_sum (map g l)).
-Proof. induction l as [|x t IH]; [reflexivity|]. cbn [map CombSpec.zsum]. rewrite IH. unfold list_sum. cbn [fold_right]. lia. Qed.
-
-Lemma list_sum_scale {A} (g : A -> nat) k l : list_sum (map (fun x => g x * k) l) = list_sum (map g l) * k.
-Proof. induction l as [|x t IH]; [reflexivity|]. unfold list_sum in *. cbn [map fold_right]. rewrite IH. lia. Qed.
-
-Lemma rmap_zindex_ones {A} (l : list A) w ss :
-  rmap (zindex (map (fun _ => 1%Z) l)) w = ROk ss -> forall x, In x ss -> x = 1%Z.
-Proof.
-  intros H. apply rmap_ok_inv in H. induction H as [|p y w' ss' Hy Hrest IH]; intros x Hx; [destruct Hx|].
-  destruct Hx as [Hx | Hx]; [|apply IH; exact Hx]. subst y.
-  apply zindex_ok in Hy. destruct Hy as [_ Hy]. apply nth_error_In in Hy. apply in_map_iff in Hy.
-  destruct Hy as [? [E _]]. congruence.
-Qed.
 
 Section F0.
 Variable fb : flat.
